@@ -18,10 +18,11 @@ def scratch():
     return d
 
 def check(d, rule):
-    b = subprocess.run(['go', 'build', './...'], cwd=d, env=ENV, capture_output=True, text=True)
-    if b.returncode != 0:
-        return 'NOCOMPILE', b.stderr[:200]
+    # no `go build` of the scratch copy: the checker type-checks what it loads and refuses a tree that does not compile
+    # (exit 2, "ERROR load"); thousands of scratch builds would otherwise fill the Go build cache (one entry per copy)
     r = subprocess.run(['/verif/bin/genqlcheck', '-repo', d, '-verif', '/verif', '-property', pid, '-no-evidence'], capture_output=True, text=True, env=ENV)
+    if r.returncode == 2 or r.stdout.startswith('ERROR'):
+        return 'NOCOMPILE', (r.stdout + r.stderr)[:200]
     lines = [l for l in r.stdout.splitlines() if l.startswith('VIOLATED') or l.startswith('UNDECIDED')]
     if not lines:
         return 'MISSED', ''
